@@ -45,26 +45,33 @@ static std::string show_cut(const uint8_t *s, const std::vector<size_t> &lens)
 	return o;
 }
 
-// exactly sized heap copy of a fragmented byte string
+// exactly sized heap copy of a fragmented byte string; the blocks are pooled per size and reused
+// (every fragment and the iovec array stay separate heap blocks of exactly the needed size)
 struct Frags {
 	std::vector<size_t> lens;
 	struct iovec *vec; size_t nv;
+	std::vector<std::vector<void *> > pool; std::vector<size_t> taken;
 	Frags() : vec(0), nv(0) {}
-	~Frags() { release(); }
-	void release() { for (size_t i = 0; i < nv; ++i) free(vec[i].iov_base); free(vec); vec = 0; nv = 0; }
+	void *get(size_t n)
+	{
+		if (pool.size() <= n) { pool.resize(n + 1); taken.resize(n + 1, 0); }
+		if (taken[n] == pool[n].size()) pool[n].push_back(malloc(n));
+		return pool[n][taken[n]++];
+	}
 	void build(const uint8_t *s, const std::vector<size_t> &l)
 	{
-		release(); lens = l; nv = l.size();
-		vec = (struct iovec *) malloc(nv * sizeof *vec);
+		for (size_t &t : taken) t = 0;
+		lens = l; nv = l.size();
+		vec = (struct iovec *) get(nv * sizeof *vec);
 		size_t p = 0;
 		for (size_t i = 0; i < nv; ++i) {
-			vec[i].iov_len = l[i]; vec[i].iov_base = malloc(l[i]);
+			vec[i].iov_len = l[i]; vec[i].iov_base = get(l[i]);
 			if (s) { if (l[i]) memcpy(vec[i].iov_base, s + p, l[i]); } else if (l[i]) memset(vec[i].iov_base, FILL, l[i]);
 			p += l[i];
 		}
 	}
-	size_t total() const { size_t t = 0; for (size_t x : lens) t += x; return t; }
-	std::string flat() const { std::string o; for (size_t i = 0; i < nv; ++i) o.append((const char *) vec[i].iov_base, vec[i].iov_len); return o; }
+	void refill() { for (size_t i = 0; i < nv; ++i) if (lens[i]) memset(vec[i].iov_base, FILL, lens[i]); }
+	size_t flat(uint8_t *out) const { size_t t = 0; for (size_t i = 0; i < nv; ++i) { if (vec[i].iov_len) memcpy(out + t, vec[i].iov_base, vec[i].iov_len); t += vec[i].iov_len; } return t; }
 	// message forms: 0 = pure iovec list, 1 = first fragment inline
 	mpt::message msg(int form) const
 	{
@@ -75,34 +82,59 @@ struct Frags {
 	}
 };
 
-// choice: a fragmentation of n bytes = composition of n + up to E zero-length fragments at the k+1 gaps
-static void choose_cut(Ctx &x, size_t n, int E, std::vector<size_t> &lens)
+// A fragmentation of n bytes = composition of n (one explorer choice, index 0 = one fragment)
+// + up to E zero-length fragments distributed over the k+1 gaps (enumerated inside the case).
+static size_t ncomp(size_t n) { return n ? (size_t) 1 << (n - 1) : 1; }
+static void composition(size_t n, size_t idx, std::vector<size_t> &parts)
 {
-	std::vector<size_t> parts;
-	if (n) { size_t cur = 1; for (size_t i = 1; i < n; ++i) { if (x.choose(2)) { parts.push_back(cur); cur = 1; } else ++cur; } parts.push_back(cur); }
-	size_t k = parts.size(), e = x.choose(E + 1), g = 0;
-	std::vector<size_t> zeros(k + 1, 0);
-	for (size_t j = 0; j < e; ++j) { g += x.choose(k + 1 - g); ++zeros[g]; }
+	parts.clear();
+	if (!n) return;
+	size_t cur = 1;
+	for (size_t i = 1; i < n; ++i) { if (idx >> (i - 1) & 1) { parts.push_back(cur); cur = 1; } else ++cur; }
+	parts.push_back(cur);
+}
+// all ways to put at most E zero-length fragments into k+1 gaps (as count per gap), the first is "none"
+static const std::vector<std::vector<uint8_t> > &zero_places(size_t k, int E)
+{
+	static std::map<std::pair<size_t, int>, std::vector<std::vector<uint8_t> > > cache;
+	auto key = std::make_pair(k, E);
+	auto it = cache.find(key);
+	if (it != cache.end()) return it->second;
+	std::vector<std::vector<uint8_t> > &out = cache[key];
+	std::vector<uint8_t> z(k + 1, 0);
+	std::function<void(size_t, int)> rec = [&](size_t from, int left) {
+		out.push_back(z);
+		if (!left) return;
+		for (size_t g = from; g <= k; ++g) { ++z[g]; rec(g, left - 1); --z[g]; }
+	};
+	// rec emits z at every node: nodes = multisets of size 0..E
+	rec(0, E);
+	return out;
+}
+static void with_zeros(const std::vector<size_t> &parts, const std::vector<uint8_t> &z, std::vector<size_t> &lens)
+{
 	lens.clear();
-	for (size_t i = 0; i <= k; ++i) { for (size_t z = 0; z < zeros[i]; ++z) lens.push_back(0); if (i < k) lens.push_back(parts[i]); }
+	for (size_t i = 0; i <= parts.size(); ++i) { for (uint8_t c = 0; c < z[i]; ++c) lens.push_back(0); if (i < parts.size()) lens.push_back(parts[i]); }
 }
 
 // result recorder: reference mode stores one blob per op, compare mode checks blob by op index
 struct Sink {
-	bool ref; std::vector<uint8_t> buf; std::vector<uint32_t> at; size_t op; std::vector<uint8_t> cur;
-	Sink() : ref(true), op(0) {}
+	bool ref; std::vector<uint8_t> buf; std::vector<uint32_t> at; size_t op;
+	uint8_t cur[8192]; size_t len;
+	Sink() : ref(true), op(0), len(0) {}
 	void start_ref() { ref = true; buf.clear(); at.clear(); op = 0; }
 	void start_cmp() { ref = false; op = 0; }
-	void begin() { cur.clear(); }
-	void num(int64_t v) { cur.push_back('i'); size_t p = cur.size(); cur.resize(p + 8); memcpy(&cur[p], &v, 8); }
-	void bytes(const void *p, size_t n) { if (n > 96) { num((int64_t) n); n = 96; } cur.push_back('b'); cur.push_back((uint8_t) n); if (n) cur.insert(cur.end(), (const uint8_t *) p, (const uint8_t *) p + n); }
+	void begin() { len = 0; }
+	void num(int64_t v) { if (len + 9 > sizeof cur) return; cur[len++] = 'i'; memcpy(cur + len, &v, 8); len += 8; }
+	void bytes(const void *p, size_t n) { if (n > 96) { num((int64_t) n); n = 96; } if (len + 2 + n > sizeof cur) return; cur[len++] = 'b'; cur[len++] = (uint8_t) n; if (n) memcpy(cur + len, p, n); len += n; }
 	bool end()
 	{
-		if (ref) { at.push_back((uint32_t) buf.size()); buf.insert(buf.end(), cur.begin(), cur.end()); ++op; return true; }
+		if (ref) { at.push_back((uint32_t) buf.size()); buf.insert(buf.end(), cur, cur + len); ++op; return true; }
 		if (op >= at.size()) { ++op; return false; }
 		size_t b = at[op], e = op + 1 < at.size() ? at[op + 1] : buf.size(); ++op;
-		return e - b == cur.size() && (cur.empty() || !memcmp(&buf[b], cur.data(), cur.size()));
+		return e - b == len && (!len || !memcmp(&buf[b], cur, len));
 	}
+	std::string blob() const { return std::string((const char *) cur, len); }
 	static std::string decode(const uint8_t *p, size_t n)
 	{
 		std::string o; size_t i = 0;
@@ -117,9 +149,19 @@ struct Sink {
 	{
 		size_t o = op - 1; std::string want = "(none)";
 		if (o < at.size()) { size_t b = at[o], e = o + 1 < at.size() ? at[o + 1] : buf.size(); want = decode(&buf[b], e - b); }
-		return "fragmented form gives {" + decode(cur.data(), cur.size()) + "}, contiguous form gives {" + want + "}";
+		return "fragmented form gives {" + decode(cur, len) + "}, contiguous form gives {" + want + "}";
 	}
 };
+// exactly sized, reused caller buffers (one heap block per size, so redzones sit directly behind them)
+static uint8_t *exact(size_t n, int which = 0)
+{
+	static std::vector<uint8_t *> pool[3];
+	std::vector<uint8_t *> &p = pool[which];
+	if (p.size() <= n) p.resize(n + 1, 0);
+	if (!p[n]) p[n] = (uint8_t *) malloc(n);
+	if (n) memset(p[n], FILL, n);
+	return p[n];
+}
 
 struct Case {
 	Run &r; const uint8_t *s; size_t n; const std::vector<size_t> *lens; const char *form; bool isref;
@@ -216,27 +258,25 @@ static std::string lencls(size_t len, size_t first, size_t n)
 {
 	return len == 0 ? "len=0" : (len > n ? "len>total" : (len > first ? "len>first-fragment" : "len<=first-fragment"));
 }
-static void ops_read(Case &c, Sink &k, const mpt::message &m0, size_t first, bool chained)
+static void ops_read(Case &c, Sink &k, const mpt::message &m0, size_t first, bool full)
 {
 	Run &r = c.r; size_t n = c.n;
 	r.hint("mpt_message_length");
 	{ size_t l = mpt::mpt_message_length(&m0); k.begin(); k.num((int64_t) l); CLOSE("mpt_message_length", "", "-", "mpt_message_length()"); }
 	r.hint("mpt_message_read");
-	for (size_t len = 0; len <= n + 1; ++len) for (int withdest = 1; withdest >= 0; --withdest) {
+	// content dependent groups only read everything at once; the read group (position labels) takes every length
+	for (size_t len = full ? 0 : n; len <= n + 1; ++len) for (int withdest = 1; withdest >= 0; --withdest) {
 		mpt::message m = m0;
-		uint8_t *dest = withdest ? (uint8_t *) malloc(len) : 0;
-		if (dest && len) memset(dest, FILL, len);
+		uint8_t *dest = withdest ? exact(len) : 0;
 		size_t got = mpt::mpt_message_read(&m, len, dest);
 		if (!c.isref && len > first && len <= n) ++P.read_cross;
 		k.begin(); k.num((int64_t) got); if (dest) k.bytes(dest, len); put_rest(k, n, m);
 		CLOSE("mpt_message_read", "", lencls(len, first, n), fmt("mpt_message_read(len=%zu,%s)", len, withdest ? "dest" : "NULL"));
-		free(dest);
 	}
-	if (!chained) return;
+	if (!full) return;
 	for (size_t l1 = 0; l1 <= n + 1; ++l1) for (size_t l2 = 0; l2 <= n + 1; ++l2) {
 		mpt::message m = m0;
-		uint8_t *d1 = (uint8_t *) malloc(l1), *d2 = (uint8_t *) malloc(l2);
-		if (l1) memset(d1, FILL, l1); if (l2) memset(d2, FILL, l2);
+		uint8_t *d1 = exact(l1, 1), *d2 = exact(l2, 2);
 		size_t g1 = mpt::mpt_message_read(&m, l1, d1);
 		k.begin(); k.num((int64_t) g1); k.bytes(d1, l1); put_rest(k, n, m);
 		size_t g2 = mpt::mpt_message_read(&m, l2, d2);
@@ -244,7 +284,6 @@ static void ops_read(Case &c, Sink &k, const mpt::message &m0, size_t first, boo
 		size_t g3 = mpt::mpt_message_read(&m, n + 1, 0);    // drain
 		k.num((int64_t) g3); put_rest(k, n, m);
 		CLOSE("mpt_message_read", "", "chained", fmt("mpt_message_read(len=%zu) ; mpt_message_read(len=%zu) ; drain", l1, l2));
-		free(d1); free(d2);
 	}
 }
 
@@ -279,11 +318,9 @@ static void ops_argv(Case &c, Sink &k, const mpt::message &m0)
 				ssize_t len = mpt::mpt_message_argv(&m, sep);
 				k.num(len);
 				if (len < 0) break;
-				uint8_t *d = (uint8_t *) malloc(len);
-				if (len) memset(d, FILL, len);
+				uint8_t *d = exact(len);
 				size_t got = mpt::mpt_message_read(&m, len, d);
 				k.num((int64_t) got); k.bytes(d, len);
-				free(d);
 				uint8_t sp = FILL; got = mpt::mpt_message_read(&m, 1, &sp);
 				k.num((int64_t) got); k.num(sp);
 				++steps;
@@ -321,7 +358,7 @@ void mc_jobs(Tier t, std::vector<std::string> &jobs)
 	Bounds b = bounds(t);
 	// big jobs first
 	for (const char *g : {"argv", "search"}) for (size_t n = b.Lstr; n >= 4 && n <= b.Lstr; --n) {
-		if (n >= 6) { for (int p = 0; p < 7; ++p) for (int q = 0; q < 7; ++q) jobs.push_back(fmt("%s/n=%zu/p=%d%d", g, n, p, q)); }
+		if (n >= 5) { for (int p = 0; p < 7; ++p) for (int q = 0; q < 7; ++q) jobs.push_back(fmt("%s/n=%zu/p=%d%d", g, n, p, q)); }
 		else for (int p = 0; p < 7; ++p) jobs.push_back(fmt("%s/n=%zu/p=%d", g, n, p));
 	}
 	for (size_t n = b.Lread + 1; n-- > 0;) jobs.push_back(fmt("read/n=%zu", n));
@@ -343,6 +380,8 @@ static void count_case(Run &r, const std::vector<size_t> &lens, int forms)
 }
 
 // ---- content dependent groups (search, argv): strings over ALPHA
+// case vector: [symbol.., composition index]; the placements of zero-length fragments and both message forms
+// are enumerated inside the case
 static void body_string(Run &r, const std::string &job, Ctx &x, bool search)
 {
 	Bounds b = bounds(r.tier);
@@ -350,34 +389,37 @@ static void body_string(Run &r, const std::string &job, Ctx &x, bool search)
 	uint8_t s[16]; size_t fixed = 0;
 	size_t pp = job.find("p=");
 	if (pp != std::string::npos) for (const char *d = job.c_str() + pp + 2; *d >= '0' && *d <= '6' && fixed < n; ++d) s[fixed++] = ALPHA[*d - '0'];
-	for (size_t i = fixed; i < n; ++i) s[i] = ALPHA[x.choose(7)];
-	std::vector<size_t> lens;
-	choose_cut(x, n, b.E, lens);
+	if (n > fixed) { size_t m = 1; for (size_t i = fixed; i < n; ++i) m *= 7; size_t v = x.choose(m); for (size_t i = n; i-- > fixed;) { s[i] = ALPHA[v % 7]; v /= 7; } }
+	size_t ci = x.choose(ncomp(n));
+	static std::vector<size_t> parts, lens;
+	composition(n, ci, parts);
 
-	static std::string refkey; static Sink k;
-	static Frags ref;
+	static std::string refjob; static uint8_t refs[16]; static size_t refn = ~(size_t) 0; static Sink k;
+	static Frags ref, f;
 	Case c(r); c.s = s; c.n = n; c.lens = &lens;
-	std::string key = job + "#" + std::string((const char *) s, n);
 	asan_error();
-	if (refkey != key || k.at.empty()) {
-		std::vector<size_t> one(1, n);
-		ref.build(s, one);
+	if (refn != n || refjob != job || memcmp(refs, s, n)) {
+		lens.assign(1, n);
+		ref.build(s, lens);
 		k.start_ref(); c.isref = true; c.form = "contiguous";
 		if (search) ops_search(c, k, ref.vec, ref.nv);
 		else { mpt::message m = ref.msg(1); ops_read(c, k, m, n, false); ops_argv(c, k, m); }
-		refkey = key; c.isref = false;
+		refjob = job; refn = n; memcpy(refs, s, n); c.isref = false;
 	}
-	Frags f; f.build(s, lens);
-	if (r.replaying) r.note("input %s cut as %s", show(s, n).c_str(), show_cut(s, lens).c_str());
-	if (search) {
-		c.form = "iovec list"; k.start_cmp();
-		ops_search(c, k, f.vec, f.nv);
-		count_case(r, lens, 1); ++P.list_form;
-		if (lens.size() == 3 && n == 3 && lens[1] == 0) r.sample("search: " + show_cut(s, lens) + " x {memchr/memrchr 8 tokens, memfcn/memrfcn 6 predicates, memstr/memrstr 6 sets, memtok 45 (tok,com,esc) combinations} vs " + show(s, n));
-	} else {
+	bool quote = false; for (size_t i = 0; i < n; ++i) if (s[i] == '"') quote = true;
+	for (const std::vector<uint8_t> &z : zero_places(parts.size(), b.E)) {
+		with_zeros(parts, z, lens);
+		f.build(s, lens);
+		if (r.replaying) r.note("input %s cut as %s", show(s, n).c_str(), show_cut(s, lens).c_str());
+		if (search) {
+			c.form = "iovec list"; k.start_cmp();
+			ops_search(c, k, f.vec, f.nv);
+			count_case(r, lens, 1); ++P.list_form;
+			if (lens.size() == 3 && n == 3 && lens[1] == 0) r.sample("search: " + show_cut(s, lens) + " x {memchr/memrchr 8 tokens, memfcn/memrfcn 6 predicates, memstr/memrstr 6 sets, memtok 45 (tok,com,esc) combinations} vs " + show(s, n));
+			continue;
+		}
 		size_t first = 0; for (size_t l : lens) if (l) { first = l; break; }
 		bool spaceb = false; { size_t p = 0; for (size_t l : lens) { p += l; if (l && p < n && isspace(s[p - 1]) && !isspace(s[p])) spaceb = true; } }
-		bool quote = false; for (size_t i = 0; i < n; ++i) if (s[i] == '"') quote = true;
 		for (int form = 0; form < 2; ++form) {
 			if (form && lens.empty()) continue;
 			c.form = form ? "message, first part inline" : "message, pure iovec list"; k.start_cmp();
@@ -388,7 +430,7 @@ static void body_string(Run &r, const std::string &job, Ctx &x, bool search)
 			if (spaceb) ++P.trim_cross;
 			if (quote && lens.size() > 1) ++P.quote_cross;
 		}
-		if (lens.size() == 3 && n == 4 && lens[1] == 0) r.sample("argv: " + show_cut(s, lens) + " as list and inline message x {length, read(0..n+1), argv/iterated argv/array_message for sep NUL,SP,'b',':'} vs " + show(s, n));
+		if (lens.size() == 3 && n == 4 && lens[1] == 0) r.sample("argv: " + show_cut(s, lens) + " as list and inline message x {length, read(all), argv/iterated argv/array_message for sep NUL,SP,'b',':'} vs " + show(s, n));
 	}
 	r.transitions += c.evals;
 }
@@ -401,64 +443,74 @@ static void body_read(Run &r, const std::string &job, Ctx &x)
 	Bounds b = bounds(r.tier);
 	size_t n = jobnum(job, "n=");
 	uint8_t s[32]; label(s, n);
-	std::vector<size_t> lens; choose_cut(x, n, b.Eread, lens);
-	static Sink k; static size_t refn = ~(size_t) 0; static Frags ref;
+	size_t ci = x.choose(ncomp(n));
+	static std::vector<size_t> parts, lens;
+	composition(n, ci, parts);
+	static Sink k; static size_t refn = ~(size_t) 0; static Frags ref, f;
 	Case c(r); c.s = s; c.n = n; c.lens = &lens;
 	asan_error();
-	if (refn != n) { std::vector<size_t> one(1, n); ref.build(s, one); k.start_ref(); c.isref = true; ops_read(c, k, ref.msg(1), n, true); c.isref = false; refn = n; }
-	Frags f; f.build(s, lens);
-	if (r.replaying) r.note("input %s cut as %s", show(s, n).c_str(), show_cut(s, lens).c_str());
-	size_t first = 0; for (size_t l : lens) if (l) { first = l; break; }
-	for (int form = 0; form < 2; ++form) {
-		if (form && lens.empty()) continue;
-		c.form = form ? "message, first part inline" : "message, pure iovec list"; k.start_cmp();
-		ops_read(c, k, f.msg(form), first, true);
-		count_case(r, lens, 1); ++(form ? P.inline_form : P.list_form);
+	if (refn != n) { lens.assign(1, n); ref.build(s, lens); k.start_ref(); c.isref = true; ops_read(c, k, ref.msg(1), n, true); c.isref = false; refn = n; }
+	for (const std::vector<uint8_t> &z : zero_places(parts.size(), b.Eread)) {
+		with_zeros(parts, z, lens);
+		f.build(s, lens);
+		if (r.replaying) r.note("input %s cut as %s", show(s, n).c_str(), show_cut(s, lens).c_str());
+		size_t first = 0; for (size_t l : lens) if (l) { first = l; break; }
+		for (int form = 0; form < 2; ++form) {
+			if (form && lens.empty()) continue;
+			c.form = form ? "message, first part inline" : "message, pure iovec list"; k.start_cmp();
+			ops_read(c, k, f.msg(form), first, true);
+			count_case(r, lens, 1); ++(form ? P.inline_form : P.list_form);
+		}
+		if (lens.size() == 4 && n == 5 && lens[2] == 0) r.sample("read: " + show_cut(s, lens) + " x {length, read(len 0..n+1, dest|NULL), all chained read(l1);read(l2);drain} vs " + show(s, n));
 	}
-	if (lens.size() == 4 && n == 5 && lens[2] == 0) r.sample("read: " + show_cut(s, lens) + " x {length, read(len 0..n+1, dest|NULL), all chained read(l1);read(l2);drain} vs " + show(s, n));
 	r.transitions += c.evals;
 }
 
+// case vector: [source composition, target size, target composition]
 static void body_memcpy(Run &r, const std::string &job, Ctx &x)
 {
 	Bounds b = bounds(r.tier);
 	size_t n = jobnum(job, "n=");
 	uint8_t s[32]; label(s, n);
-	std::vector<size_t> sl, dl;
-	choose_cut(x, n, b.Ecpy, sl);
+	static std::vector<size_t> sp, dp, sl, dl;
+	composition(n, x.choose(ncomp(n)), sp);
 	size_t m = x.choose(n + 2);
-	choose_cut(x, m, b.Ecpy, dl);
+	composition(m, x.choose(ncomp(m)), dp);
 	static Sink refs[40]; static bool have[40]; static size_t refn = ~(size_t) 0;
+	static Frags src, dst;
 	if (refn != n) { for (bool &h : have) h = false; refn = n; }
 	Sink &k = refs[m];
 	Case c(r); c.s = s; c.n = n; c.lens = &sl;
 	r.hint("mpt_memcpy");
 	asan_error();
-	auto run = [&](const Frags &src, const Frags &dst, const std::vector<size_t> &dlens) {
+	auto run = [&]() {
+		uint8_t out[64];
 		for (ssize_t len = -2; len <= (ssize_t) n + 1; ++len) {
-			Frags d; d.build(0, dlens);     // fresh target each time
-			ssize_t ret = mpt::mpt_memcpy(len, src.vec, src.nv, d.vec, d.nv);
-			std::string out = d.flat();
-			if (!c.isref && ret > 0 && src.nv > 1 && d.nv > 1) ++P.memcpy_both;
+			dst.refill();     // fresh target each time
+			ssize_t ret = mpt::mpt_memcpy(len, src.vec, src.nv, dst.vec, dst.nv);
+			size_t on = dst.flat(out);
+			if (!c.isref && ret > 0 && src.nv > 1 && dst.nv > 1) ++P.memcpy_both;
 			if (!c.isref && len < 0 && ret >= 0 && (size_t) ret < n) ++P.memcpy_partial;
-			k.begin(); k.num(ret); k.bytes(out.data(), out.size());
+			k.begin(); k.num(ret); k.bytes(out, on);
 			CLOSE("mpt_memcpy", "", len < 0 ? "len<0" : (len == 0 ? "len=0" : ((size_t) len > n ? "len>source" : ((size_t) len > m ? "len>target" : "len-fits"))),
-			      fmt("mpt_memcpy(len=%zd) into target of %zu bytes cut as %s", len, m, show_cut((const uint8_t *) std::string(m, '.').data(), dlens).c_str()));
+			      fmt("mpt_memcpy(len=%zd) into target of %zu bytes cut as %s", len, m, show_cut((const uint8_t *) std::string(m, '.').data(), dst.lens).c_str()));
 		}
-		(void) dst;
 	};
 	if (!have[m]) {
-		Frags src, dst; std::vector<size_t> one(1, n), onem(1, m);
-		src.build(s, one); k.start_ref(); c.isref = true; run(src, dst, onem); c.isref = false; have[m] = true;
+		sl.assign(1, n); dl.assign(1, m);
+		src.build(s, sl); dst.build(0, dl); k.start_ref(); c.isref = true; run(); c.isref = false; have[m] = true;
 	}
-	if (sl.empty() || dl.empty()) { r.count("memcpy_zero_fragment_list(documented early return, not compared)"); return; }
-	Frags src, dst; src.build(s, sl);
-	if (r.replaying) r.note("source %s, target %zu bytes in %zu fragments", show_cut(s, sl).c_str(), m, dl.size());
-	c.form = "iovec list"; k.start_cmp();
-	run(src, dst, dl);
-	r.states += 1; if (sl.size() >= 2 || dl.size() >= 2) ++P.nontrivial;
-	for (size_t l : sl) if (!l) { ++P.with_empty; break; }
-	if (sl.size() == 3 && dl.size() == 2 && n == 4 && m == 4 && sl[1] == 0) r.sample("memcpy: source " + show_cut(s, sl) + fmt(" -> target fragments of %zu+%zu bytes, len -2..n+1", dl[0], dl[1]) + " vs contiguous source and target");
+	for (const std::vector<uint8_t> &zs : zero_places(sp.size(), b.Ecpy)) for (const std::vector<uint8_t> &zd : zero_places(dp.size(), b.Ecpy)) {
+		with_zeros(sp, zs, sl); with_zeros(dp, zd, dl);
+		if (sl.empty() || dl.empty()) { r.count("memcpy_zero_fragment_list(documented early return, not compared)"); continue; }
+		src.build(s, sl); dst.build(0, dl);
+		if (r.replaying) r.note("source %s, target %zu bytes in %zu fragments", show_cut(s, sl).c_str(), m, dl.size());
+		c.form = "iovec list"; k.start_cmp();
+		run();
+		r.states += 1; if (sl.size() >= 2 || dl.size() >= 2) ++P.nontrivial;
+		for (size_t l : sl) if (!l) { ++P.with_empty; break; }
+		if (sl.size() == 3 && dl.size() == 2 && n == 4 && m == 4 && sl[1] == 0) r.sample("memcpy: source " + show_cut(s, sl) + fmt(" -> target fragments of %zu+%zu bytes, len -2..n+1", dl[0], dl[1]) + " vs contiguous source and target");
+	}
 	r.transitions += c.evals;
 }
 
@@ -474,7 +526,7 @@ static std::string append_blob(const mpt::message &m, int prefill, bool *asan)
 	Sink k; k.begin(); k.num(ret);
 	mpt::array::content *b = a._buf.instance();
 	if (b) k.bytes(b->data(), b->_used); else k.num(-1);
-	std::string out((const char *) k.cur.data(), k.cur.size());
+	std::string out = k.blob();
 	mpt::mpt_array_clone(&a, 0);
 	return out;
 }
@@ -482,20 +534,23 @@ static std::string append_guarded(const mpt::message &m, int prefill)
 {
 	return in_child([&]() { bool as = false; std::string o = append_blob(m, prefill, &as); return (as ? std::string("A") : std::string("R")) + o; }, 5);
 }
+// case vector: [length, array prefilled?, composition]
 static void body_append(Run &r, const std::string &, Ctx &x)
 {
 	Bounds b = bounds(r.tier);
 	size_t n = x.choose(b.Lapp + 1);
 	int prefill = (int) x.choose(2);
 	uint8_t s[32]; label(s, n);
-	std::vector<size_t> lens; choose_cut(x, n, b.Eread, lens);
+	static std::vector<size_t> parts, lens;
+	composition(n, x.choose(ncomp(n)), parts);
 	static std::map<std::pair<size_t, int>, std::string> refs;
+	static Frags one, f;
 	Case c(r); c.s = s; c.n = n; c.lens = &lens;
 	r.hint("mpt_message_append");
 	auto key = std::make_pair(n, prefill);
 	std::string acls = prefill ? "array-with-content" : "empty-array";
 	if (!refs.count(key)) {
-		Frags one; one.build(s, std::vector<size_t>(1, n));
+		lens.assign(1, n); one.build(s, lens);
 		std::string o = append_guarded(one.msg(1), prefill);
 		refs[key] = o; ++c.evals;
 		c.isref = true;
@@ -505,23 +560,26 @@ static void body_append(Run &r, const std::string &, Ctx &x)
 	}
 	const std::string &ref = refs[key];
 	bool haveref = !ref.empty() && ref[0] == 'R';
-	Frags f; f.build(s, lens);
-	if (r.replaying) r.note("input %s cut as %s, array %s", show(s, n).c_str(), show_cut(s, lens).c_str(), acls.c_str());
-	for (int form = 0; form < 2; ++form) {
-		if (form && lens.empty()) continue;
-		c.form = form ? "message, first part inline" : "message, pure iovec list";
-		mpt::message m = f.msg(form);
-		std::string got; bool as = false;
-		if (m.clen == 0) { std::string o = append_guarded(m, prefill); if (o.empty() || o[0] == '\x01') { c.fail("mpt_message_append", "clen=0", acls, "fault", "mpt_message_append on " + c.where() + ": call does not return (crash or runaway loop in a forked child)"); continue; } as = o[0] == 'A'; got = o.substr(1); }
-		else got = append_blob(m, prefill, &as);
-		++c.evals;
-		count_case(r, lens, 1); ++(form ? P.inline_form : P.list_form);
-		if (lens.size() > 1) ++P.append_multi;
-		if (as) c.fail("mpt_message_append", "", acls, "asan", "mpt_message_append on " + c.where() + ": access outside the message (AddressSanitizer)");
-		else if (!haveref) r.count("append_without_reference(contiguous call faulted)");
-		else if (got != ref.substr(1)) c.fail("mpt_message_append", "", acls, "wrong-result", "mpt_message_append on " + c.where() + ": fragmented form gives {" + Sink::decode((const uint8_t *) got.data(), got.size()) + "}, contiguous form gives {" + Sink::decode((const uint8_t *) ref.data() + 1, ref.size() - 1) + "}");
+	for (const std::vector<uint8_t> &z : zero_places(parts.size(), b.Eread)) {
+		with_zeros(parts, z, lens);
+		f.build(s, lens);
+		if (r.replaying) r.note("input %s cut as %s, array %s", show(s, n).c_str(), show_cut(s, lens).c_str(), acls.c_str());
+		for (int form = 0; form < 2; ++form) {
+			if (form && lens.empty()) continue;
+			c.form = form ? "message, first part inline" : "message, pure iovec list";
+			mpt::message m = f.msg(form);
+			std::string got; bool as = false;
+			if (m.clen == 0) { std::string o = append_guarded(m, prefill); if (o.empty() || o[0] == '\x01') { c.fail("mpt_message_append", "clen=0", acls, "fault", "mpt_message_append on " + c.where() + ": call does not return (crash or runaway loop in a forked child)"); continue; } as = o[0] == 'A'; got = o.substr(1); }
+			else got = append_blob(m, prefill, &as);
+			++c.evals;
+			count_case(r, lens, 1); ++(form ? P.inline_form : P.list_form);
+			if (lens.size() > 1) ++P.append_multi;
+			if (as) c.fail("mpt_message_append", "", acls, "asan", "mpt_message_append on " + c.where() + ": access outside the message (AddressSanitizer)");
+			else if (!haveref) r.count("append_without_reference(contiguous call faulted)");
+			else if (got != ref.substr(1)) c.fail("mpt_message_append", "", acls, "wrong-result", "mpt_message_append on " + c.where() + ": fragmented form gives {" + Sink::decode((const uint8_t *) got.data(), got.size()) + "}, contiguous form gives {" + Sink::decode((const uint8_t *) ref.data() + 1, ref.size() - 1) + "}");
+		}
+		if (lens.size() == 3 && n == 4 && lens[0] == 0) r.sample("append: " + show_cut(s, lens) + " appended to an " + acls + " as list and inline message vs " + show(s, n));
 	}
-	if (lens.size() == 3 && n == 4 && lens[0] == 0) r.sample("append: " + show_cut(s, lens) + " appended to an " + acls + " as list and inline message vs " + show(s, n));
 	r.transitions += c.evals;
 }
 
@@ -558,7 +616,7 @@ static void body_qget(Run &r, const std::string &job, Ctx &x)
 				mpt::message m2 = m; size_t got = mpt::mpt_message_read(&m2, take, d);
 				k.num((int64_t) got); k.bytes(d, take); free(d);
 			}
-			res[i].assign((const char *) k.cur.data(), k.cur.size());
+			res[i] = k.blob();
 			free(vec);
 		}
 		std::string acls = take == 0 ? "take=0" : (qo + take > len ? "beyond-content" : (wraps && qo < max - off && qo + take > max - off ? "crossing-wrap" : "in-segment"));
